@@ -68,6 +68,7 @@ class Env:
         self.tables = {}  # name -> Tab
         self.bind = {}  # "$name" -> SymInt | int
         self.metadata = None
+        self.sql_mode = False  # SQL determinacy rules in sem_seq (DESIGN 2.4)
         self.count_mode = False  # order of unordered tables is irrelevant (count-only VCs)
 
     def val(self, v):
@@ -201,40 +202,74 @@ def build(node, env, memo=None):
 
 
 def sem_seq(node, env, prefer="l"):
-    """Direct evaluation of the applied operation sequence over the oracle tables."""
+    """Direct evaluation of the applied operation sequence over the oracle tables.
+
+    With ``env.sql_mode`` the determinacy bookkeeping of DESIGN 2.4 is applied: order exists only
+    after a sort, a slice needs a determinate order (else Skip), deduplication after a projection
+    that dropped a column loses the order."""
+    t = _sem_seq(node, env, prefer)
+    return t
+
+
+def _covers_all(terms, cols):
+    bare = {e[1] for e, _ in terms if e[0] == "ref"}
+    return set(cols) <= bare
+
+
+def _sem_seq(node, env, prefer):
     op = node[0]
     bind = env.bind
+    sqlm = getattr(env, "sql_mode", False)
     if op == "leaf":
         return env.tables[node[1]]
     if op in ("mat", "xfer"):
-        return sem_seq(node[1], env, prefer)
+        return _sem_seq(node[1], env, prefer)
     if op == "chain":
-        return relmodel.chain(sem_seq(node[1], env, prefer), sem_seq(node[2], env, prefer))
+        a, b = _sem_seq(node[1], env, prefer), _sem_seq(node[2], env, prefer)
+        if sqlm:
+            a, b = relmodel.unordered(a), relmodel.unordered(b)
+        return relmodel.chain(a, b)
     if op == "join":
-        a, b = sem_seq(node[1], env, prefer), sem_seq(node[2], env, prefer)
+        a, b = _sem_seq(node[1], env, prefer), _sem_seq(node[2], env, prefer)
         common = [c for c in a.cols & b.cols if env.tags[c].is_key]
         pred = (lambda v: exprsem.z3_of_ast(node[3], v, bind)) if node[3] is not None else None
         return relmodel.join(a, b, common, pred, prefer)
-    t = sem_seq(node[1], env, prefer)
+    t = _sem_seq(node[1], env, prefer)
     if op == "calc":
-        return relmodel.calc(t, node[2], lambda v: exprsem.z3_of_ast(node[3], v, bind))
-    if op == "proj":
-        return relmodel.project(t, node[2])
-    if op == "sel":
-        return relmodel.select(t, lambda v: exprsem.z3_of_ast(node[2], v, bind))
-    if op == "dedup":
-        return relmodel.dedup(t)
-    if op == "sort":
-        return relmodel.sort(t, [((lambda v, e=e: exprsem.z3_of_ast(e, v, bind)), asc) for e, asc in node[2]])
-    if op == "slice":
+        r = relmodel.calc(t, node[2], lambda v: exprsem.z3_of_ast(node[3], v, bind))
+    elif op == "proj":
+        r = relmodel.project(t, node[2])
+        r.det, r.dropped = t.det, t.dropped or (set(node[2]) != set(t.cols))
+        return r
+    elif op == "sel":
+        r = relmodel.select(t, lambda v: exprsem.z3_of_ast(node[2], v, bind))
+    elif op == "dedup":
+        if sqlm and t.ordered and not (t.det and not t.dropped):
+            t = relmodel.unordered(t)
+        r = relmodel.dedup(t)
+    elif op == "sort":
+        r = relmodel.sort(t, [((lambda v, e=e: exprsem.z3_of_ast(e, v, bind)), asc) for e, asc in node[2]])
+        if sqlm and node[2]:
+            cov = _covers_all(node[2], t.cols)
+            r.det = cov or (t.ordered and t.det and not t.dropped)
+            r.dropped = False if cov else t.dropped
+            return r
+        if sqlm and not node[2]:
+            r = t
+    elif op == "slice":
         if not t.ordered:
             if not env.count_mode:
-                raise Skip("slice of an unordered relation is indeterminate")
+                raise Skip("indeterminate: slice of an unordered relation")
             t = relmodel.index_order(t)
+        elif sqlm and not t.det and not env.count_mode:
+            raise Skip("indeterminate: slice over a sort that does not order the rows totally")
         start = z3.IntVal(0) if node[2] is None else exprsem.zval(node[2], bind)
         stop = None if node[3] is None else exprsem.zval(node[3], bind)
-        return relmodel.slice_(t, start, stop)
-    raise TypeError(f"bad program node {node!r}")
+        r = relmodel.slice_(t, start, stop)
+    else:
+        raise TypeError(f"bad program node {node!r}")
+    r.det, r.dropped = t.det, t.dropped
+    return r
 
 
 def shared_nonkey(node, env):
